@@ -247,6 +247,13 @@ func (c *Ctx) Violate(signature, detail string, caseJSON []byte) {
 	c.res.Violations = append(c.res.Violations, Violation{Signature: signature, Detail: detail, Case: append([]byte(nil), caseJSON...)})
 }
 
+// ViolationList returns a copy of the violations recorded so far.
+func (c *Ctx) ViolationList() []Violation {
+	c.mu.Lock()
+	defer c.mu.Unlock()
+	return append([]Violation(nil), c.res.Violations...)
+}
+
 // Violations returns the number recorded so far.
 func (c *Ctx) NViolations() int64 { return atomic.LoadInt64(&c.nviol) }
 
